@@ -1,5 +1,7 @@
 import Drv.Stat
 import FsutilModel.Model.SendProto
+import FsutilModel.Model.RecvProto
+import Drv.Sync
 open Lean Fsm
 
 namespace Drv
@@ -29,5 +31,70 @@ def hSendProto (j : Json) : Except String Json := do
   let v := view.map fun s => (s.isRegular, if s.isRegular then s.size.toNat else 0)
   let vd := SP.accept v (parseSenderLog log)
   return jobj [("accept", toJson vd.ok), ("at", toJson vd.at_), ("why", toJson vd.why)]
+
+end Drv
+
+namespace Drv
+open Fsm
+
+def parseReceiverLog (log : Array Json) : List R.Ev :=
+  log.toList.filterMap fun x =>
+    let e := getStrD x "e" ""
+    let k := getStrD x "k" ""
+    let t := getStrD x "t" ""
+    let id := getNatD x "id" 0
+    let n := getNatD x "n" 0
+    if e != "R" then none else
+    match k, t with
+    | "recv", "STAT" => if (x.getObjVal? "stat").isOk then some .rStat else some .rEnd
+    | "recv", "DATA" => if n == 0 then some (.rTerm id) else some (.rData id (List.replicate n 0))
+    | "send", "REQ" => some (.sReq id)
+    | "send", "FIN" => some .sFin
+    | _, _ => none
+
+def accRunR (s : R.St) (i : Nat) : List R.Ev → (Bool × Nat × R.St)
+  | [] => (true, i, s)
+  | e :: es => match R.step s e with
+    | some s' => accRunR s' (i+1) es
+    | none => (false, i, s)
+
+def hRecvProto (j : Json) : Except String Json := do
+  let view ← (← getArr j "view").toList.mapM parseVEnt
+  let before ← (← getArr j "before").toList.mapM parseSnap
+  let after ← (← getArr j "after").toList.mapM parseSnap
+  let o := parseSyncOpt ((j.getObjVal? "opt").toOption.getD (jobj []))
+  let need := expectedReqs o before view
+  let evs := parseReceiverLog (← getArr j "log")
+  let (ok, at_, s) := accRunR { need := need } 0 evs
+  let mut out := [("accept", toJson ok), ("at", toJson at_), ("need", toJson need), ("reqd", toJson s.reqd.reverse),
+                  ("fin", toJson s.finSent)]
+  out := out ++ verdictJ "c01" (specSync o before after view)
+  match j.getObjVal? "atfin" with
+  | .ok (.arr a) =>
+    let atfin ← a.toList.mapM parseSnap
+    out := out ++ verdictJ "atfin" (specSync o before atfin view)
+  | _ => pure ()
+  return jobj out
+
+def parsePkt (x : Json) : Except String R.Pkt := do
+  match getStrD x "t" "" with
+  | "STAT" =>
+    match x.getObjVal? "stat" with
+    | .ok (.obj _) => return .stat (← parseStat ((x.getObjVal? "stat").toOption.getD .null))
+    | _ => return .endStats
+  | "DATA" => return .data (getNatD x "id" 0) ((getNatD x "n" 0 == 0) && (getStrD x "data" "" == ""))
+  | "FIN" => return .fin
+  | "ERR" => return .err
+  | t => throw s!"pkt {t}"
+
+def hHostile (j : Json) : Except String Json := do
+  let ps ← (← getArr j "script").toList.mapM parsePkt
+  let stats := ps.filterMap fun p => match p with | .stat s => some s | _ => none
+  let requestable := fun (id : Nat) => match stats[id]? with
+    | some s => s.canRequestData && s.linkname == []
+    | none => false
+  match R.admission requestable ps with
+  | .allOk => return jobj [("offender", Json.null)]
+  | .offender i why => return jobj [("offender", toJson i), ("why", toJson why)]
 
 end Drv
